@@ -522,8 +522,9 @@ def gen_module(r, idx):
     return "\n".join(L) + "\n", feats
 
 
-STEPS = ["synthesize_fields", "resolve_symbols", "set_write_methods", "annotate_types",
-         "check_constraints", "replace_next"]
+# names of glue.process_ir passes (an unknown name only makes that stop point a no-op here)
+STEPS = ["desugar", "resolve_symbols", "set_dependency_order", "annotate_types", "compute_constants",
+         "normalize_and_verify", "check_constraints", "set_write_methods"]
 
 
 # ------------------------------------------------------------------ synthetic messages
@@ -653,6 +654,46 @@ def rand_msg(r, cls, depth, stats):
             setattr(obj, chosen[g], final)
             stats["oneof-overwrite"] = stats.get("oneof-overwrite", 0) + 1
     return obj
+
+
+def falsy_value(spec):
+    """The falsy-but-set value of a field's type (the values a truthiness test would lose)."""
+    t = spec.data_type
+    if spec.is_dataclass:
+        return t()
+    if t is parser_types.SourceLocation:
+        return parser_types.SourceLocation()
+    if spec.is_enum:
+        return t(0) if 0 in [int(m.value) for m in t] else list(t)[0]
+    if t is bool:
+        return False
+    if t is int:
+        return 0
+    if t is str:
+        return ""
+    raise common.InfraError("no falsy value for %r" % (t,))
+
+
+def enumerate_set_unset(cls, r, cap):
+    """Boundary enumeration: every subset of the class's fields set to its falsy-but-set
+    value (LIST: empty vs one element), the others unset; all 2^k subsets when 2^k <= cap,
+    otherwise `cap` random subsets plus the empty and the full one."""
+    specs = list(ir_data_fields.field_specs(cls).values())
+    k = len(specs)
+    if 2 ** k <= cap:
+        masks = range(2 ** k)
+    else:
+        masks = [0, 2 ** k - 1] + [r.getrandbits(k) for _ in range(cap - 2)]
+    for mask in masks:
+        kw = {}
+        for i, spec in enumerate(specs):
+            if not (mask >> i) & 1:
+                continue
+            if spec.container is ir_data_fields.FieldContainer.LIST:
+                kw[spec.name] = [falsy_value(spec)]
+            else:
+                kw[spec.name] = falsy_value(spec)
+        yield mask, cls(**kw)
 
 
 # ------------------------------------------------------------------ malformed dict stream
@@ -1351,6 +1392,18 @@ def explore(chk, tier, model_ok, schema, search_mode=False):
             run.flush()
     run.flush()
 
+    # 3b. boundary enumeration: set/unset subsets with falsy-but-set values, every class
+    rb = common.rng("C18-subsets")
+    n_sub = 0
+    for cls in classes:
+        for mask, obj in enumerate_set_unset(cls, rb, 64 if quick else 2048):
+            n_sub += 1
+            if run.message(obj, "subset/%s/%d" % (cls.__name__, mask), {"input": {"neutral": neutral(obj)}}):
+                chk.nontrivial("subset:%s:%d" % (cls.__name__, mask))
+        if len(run.ops) > 3000:
+            run.flush()
+    run.flush()
+    chk.extra["set_unset_subsets"] = n_sub
     mark("synthetic")
     # 4. locations
     run.locations(common.rng("C18-loc"), 60 if quick else 2000)
